@@ -704,6 +704,8 @@ GRID_HELPERS = [
     {'d': 'object', 'name': 'PO', 'members': [{'name': 'p', 't': {'k': 'ptr', 'to': 'void'}}, {'name': 'c', 't': _b('gint8')}]},
     {'d': 'boxed', 'name': 'PB', 'members': [{'name': 'i', 't': _b('gint32')}, {'name': 'c', 't': _arr(2, _b('gint8'))}]},  # 8 / 4
     {'d': 'alias', 'name': 'AlS', 'target': 'P6'},
+    {'d': 'alias', 'name': 'AlE', 'target': 'En'},
+    {'d': 'alias', 'name': 'AlU', 'target': 'PU'},
 ]
 
 # (label, member type, deep).  deep kinds go through every nesting context, the others through the
@@ -717,6 +719,7 @@ GRID_KINDS = (
      ('enum-u32', _iv('Eu'), True), ('enum-neg', _iv('En'), True), ('flags', _iv('Fl'), True),
      ('callback-inline', {'k': 'cb'}, True), ('callback-typedef', _iv('Cb'), True),
      ('alias-basic', _b('Al'), True), ('alias-struct', _iv('AlS'), True),
+     ('alias-enum', _iv('AlE'), False), ('alias-union', _iv('AlU'), False), ('array2-alias-union', _arr(2, _iv('AlU')), False),
      ('struct-3/1', _iv('P3'), True), ('struct-16/8', _iv('P16'), True), ('struct-6/2', _iv('P6'), False),
      ('struct-empty', _iv('PE'), True), ('union-8/4', _iv('PU'), True), ('union-3/1', _iv('PU3'), True),
      ('object-by-value', _iv('PO'), True), ('boxed-by-value', _iv('PB'), True),
@@ -1446,14 +1449,22 @@ def run(ctx):
     ctx.coverage.update({
         'evaluations': R.evals,
         'distinct_nontrivial': R.cnt.n_distinct(),
-        'rule': 'seeded generator of acyclic struct/union/boxed/class declarations over all member kinds (32 basic and '
+        'rule': 'deterministic grid (coverage.grid): every member kind (all 32 basic names, 10 pointer sorts, enums/flags, '
+                'inline and typedef callbacks, aliases of basic/struct/union/enum, by-value struct/union/class/boxed with '
+                'size != alignment, arrays of length 0 / 1 / n of each element sort incl. arrays of structs, unions, '
+                'enums, pointers, arrays) x every nesting context over struct/union/array-of up to depth 3 (quick) / 4 '
+                '(thorough), plus enumerations at every storage-class boundary (127/128, 255/256, 32767/32768, '
+                '65535/65536, 2^31-1/2^31, 2^32-1, -1, -128/-129, -32768/-32769, -2^31, negative with a large positive) '
+                'alone and as struct / union / array members; THEN a seeded generator of acyclic struct/union/boxed/class declarations over all member kinds (32 basic and '
                 'platform integer/float names, gboolean, GType, gunichar, pointers of 7 sorts, utf8/filename, enums and '
                 'flags of 15 value-range classes incl. negative / >= 2^31 / mixed, fixed arrays incl. nested and zero '
                 'length, by-value and by-pointer structs/unions of the namespace up to depth 4, named and inline '
                 'callbacks, aliases), 0..12 members; every declaration goes through the real g-ir-compiler + public '
                 'API, the Lean model + Spec, and gcc.  non-trivial = at least 2 members; distinct by content hash. '
-                'Permutations: ' + exhaustive + '. Unknown-size stream: void fields, self/mutual recursion, unresolvable '
-                'types (tool must stop or record unknown), flexible array members, non-introspectable by-value fields.',
+                'Permutations: ' + exhaustive + '. Unknown-size stream: void fields (in struct, union, class, boxed), '
+                'self/mutual recursion, unresolvable types, arrays of length 0 / 1 / n whose element has no known size, '
+                'the unknown member one or two levels down by value or as an array element (tool must stop or record '
+                'unknown), flexible array members, non-introspectable by-value fields.',
         'samples': samples,
         'distribution': R.cnt.counts,
         'corpus_cases': sum(len(b.decls) for b in corpus),
